@@ -48,6 +48,32 @@ Proof. exact tags_of_is_words. Qed.
 Theorem C06_tags_roundtrip : forall ts, forallb good_tag ts = true -> words (join_sp ts) = ts.
 Proof. exact words_join. Qed.
 
+(* QuaMap.write, WHOLE DOCUMENT, for every chart in the strict domain (declared columns in any order, numeric cells, integral
+   columns >= 0, list key sounds, typed metadata, tags without blanks) and every default table with the reference keys:
+   the oracle holds, i.e. (by C06_write_oracle_sound) the written document is well-formed (qua_write_wf) and denotes the
+   chart with every start and end time moved by less than 1 ms and the same lanes, key sounds, tempos, multipliers and
+   metadata, every metadata key declared (qua_write_denotes) *)
+Theorem C06_qua_write_ok : forall ds c, length ds = length ref_meta_table -> wf_chartb false c = true ->
+  write_specb c (qua_write (combine ref_keys ds) c) = true.
+Proof. exact qua_write_ok. Qed.
+Theorem C06_qua_write_live_ok : forall c, wf_chartb false c = true -> write_specb c (Live.write c) = true.
+Proof. exact qua_write_live_ok. Qed.
+Theorem C06_qua_write_wf_denotes : forall c, wf_chartb false c = true -> WriteSpec c (Live.write c).
+Proof. exact qua_write_wf_denotes. Qed.
+(* the four list writers, any column order *)
+Theorem C06_hits_to_yaml_ok : forall f, frame_okb (hit_decl false) false f = true ->
+  exists rows, hits_to_yaml f = Some rows /\ SectionOK hit_row_denote (f_rows f) note_keys rows.
+Proof. exact hits_to_yaml_ok. Qed.
+Theorem C06_holds_to_yaml_ok : forall f, frame_okb (hold_decl false) false f = true ->
+  exists rows, holds_to_yaml f = Some rows /\ SectionOK hold_row_denote (f_rows f) note_keys rows.
+Proof. exact holds_to_yaml_ok. Qed.
+Theorem C06_bpms_to_yaml_ok : forall f, frame_okb bpm_decl false f = true ->
+  exists rows, bpms_to_yaml f = Some rows /\ PointsOK K_Bpm 120%Q N_bpm (f_rows f) tp_keys rows.
+Proof. exact bpms_to_yaml_ok. Qed.
+Theorem C06_svs_to_yaml_ok : forall f, frame_okb sv_decl false f = true ->
+  exists rows, svs_to_yaml f = Some rows /\ PointsOK K_Multiplier 1%Q N_multiplier (f_rows f) sv_keys rows.
+Proof. exact svs_to_yaml_ok. Qed.
+
 (* writer, hits: for every list with the declared columns, one well-formed record per row denoting the row *)
 Theorem C06_write_hits_partial : forall l, forallb hit_ok l = true -> hits_to_yaml (canon_hits l) = Some (map hit_out l).
 Proof. exact hits_to_yaml_canonical. Qed.
